@@ -680,7 +680,9 @@ def run_check(mod, tier, seed, replay=None):
         except Exception as e:  # noqa
             extra_obl = [["extra_obligations", False, "raised %s: %s" % (type(e).__name__, str(e)[:300])]]
         for name, ok, detail in extra_obl:
-            if not ok:
+            if ok is None:      # the translator refuses the current shape of the source: the tie does not apply (no alarm)
+                print("note: source-translation tie not applicable: %s: %s" % (name, str(detail)[:300]))
+            elif not ok:
                 broken.append("source-translation obligation %s: %s" % (name, str(detail)[:600]))
 
     # ---- extended search when something is broken but no failing input yet
@@ -766,7 +768,8 @@ def run_check(mod, tier, seed, replay=None):
                 "oracle_failures": len(failures), "known_finding_hits": sorted(known_hits),
                 "exhaustive": bool(getattr(mod, "EXHAUSTIVE", {}).get(tier, False)),
                 "partial": getattr(mod, "PARTIAL", ""),
-                "source_translation_obligations": [{"name": n, "ok": bool(o), "detail": str(d)[:300]} for n, o, d in extra_obl],
+                "source_translation_obligations": [{"name": n, "ok": (None if o is None else bool(o)), "detail": str(d)[:300]}
+                                                   for n, o, d in extra_obl],
                 "anchored_sources_changed_cases_escalated": escalated,
             },
             "assumptions": list(getattr(mod, "ASSUMPTIONS", [])),
